@@ -146,6 +146,12 @@ func TestSentinelPersonality(t *testing.T) {
 		c3b.send("SUBSCRIBE", "+switch-master", "+sdown")
 		c3b.read()
 		c3b.read()
+		w.Lock()
+		if n0, n1 := g.SubscribersLocked(sens[0], "+switch-master"), g.SubscribersLocked(sens[1], "+switch-master"); n0 != 1 || n1 != 0 {
+			w.Unlock()
+			t.Fatalf("subscribers: %d %d", n0, n1)
+		}
+		w.Unlock()
 		g.Failover(nodes[1])
 		ev := c3b.read()
 		if ev.T != '>' || ev.A[0].S != "message" || ev.A[1].S != "+switch-master" || ev.A[2].S != "mymaster 10.0.1.1 6379 10.0.1.2 6379" {
